@@ -27,10 +27,13 @@ def targetLockExcludes : Bool :=
   C31.buildLockFileExpr == "recv.TmpDir() + lockFileSuffix" &&
   C31.lockFileSuffix != "" && !C31.lockFileSuffix.toList.contains '/'
 
-/-- `plz build` / `plz test` go through `runPlease`; the first repo-lock call there gives the mode. -/
+/-- `plz build` / `plz test` go through `runPlease`; the first repo-lock call there says which lock.go wrapper is
+    used, and that wrapper's flock flag gives the mode actually requested. -/
 def repoLockExclusive : Bool :=
-  (C31.runPleaseCalls.filter fun c => c == "AcquireSharedRepoLock" || c == "AcquireExclusiveRepoLock").head? ==
-    some "AcquireExclusiveRepoLock"
+  match (C31.runPleaseCalls.filter fun c => c == "AcquireSharedRepoLock" || c == "AcquireExclusiveRepoLock").head? with
+  | some "AcquireSharedRepoLock" => C31.repoSharedFlag == "syscall.LOCK_EX"
+  | some "AcquireExclusiveRepoLock" => C31.repoExclusiveFlag == "syscall.LOCK_EX"
+  | _ => false      -- no repo lock at all: nothing serialises the invocations
 
 def generatedLFacts : LFacts := { excl := targetLockExcludes, repoExclusive := repoLockExclusive }
 
@@ -50,7 +53,8 @@ def moveOK : Bool :=
   C31.prepareDirectoriesArgs == ["TmpDir:true", "OutDir:false"] &&
   before C31.moveOutputCalls "Equal" "RemoveAll" && before C31.moveOutputCalls "RemoveAll" "Rename" &&
   C31.moveOutputRename == "os.Rename(param2, param3)" &&
-  C31.moveOutputKeepCond == "bytes.Equal(local, local)" &&      -- equal hash ⇒ the existing file stays, unconditionally
+  -- hash of the EXISTING output (param3 = realOutput) equals hash of the NEW one (param2 = tmpOutput) ⇒ the file stays
+  C31.moveOutputKeepCond == "bytes.Equal(hashOf(param3), hashOf(param2))" &&
   !C31.moveOutputCalls.contains "WriteFile" && !C31.moveOutputCalls.contains "Create"
 
 /-- The test step is bracketed in the same way by the per-run test lock. -/
@@ -65,6 +69,8 @@ def testBracketOK : Bool :=
 def LockFactsOK : Bool :=
   generatedFacts.cmpRule && generatedFacts.cmpSource && generatedFacts.keepOld &&
   C01.needsBuildingChecksOutputs && C01.needsBuildingChecksMetadata &&
-  generatedLFacts.excl && stepOrderOK && moveOK && testBracketOK
+  generatedLFacts.excl && stepOrderOK && moveOK && testBracketOK &&
+  -- `--nolock` is declared (please.go:90) but read nowhere: no path skips the locks the model has
+  C31.noLockFlagReads == 0
 
 end PlzVerif.Lock
